@@ -32,9 +32,10 @@ type OnceH struct {
 	Deliveries []Delivery `json:"deliveries"`
 	Factories  int        `json:"factories"`
 	TickMs     int        `json:"tick_ms"` // dispatch interval of the task manager
+	Refuse     []int      `json:"refuse"`  // which Add calls (by order) the task queue refuses
 }
 
-const ruleOnce = "tier 1 (at-most-once): a never-started agent with its cache, the real BatchProcessor with 1-3 counting task factories and the REAL SimpleTasksManager (started, dispatch tick 2/5/20 ms, 10 tasks per tick) whose tasks record for which batch they run; rapid draws 1-6 distinct batches of 1-60 signed snapshots of realistic size (32-byte digests, 64-byte signatures) and a delivery list in which each batch arrives 1-6 times 'from' drawn peers with drawn TTLs, in a drawn order, interleaved with the other batches. Oracle: tasks created per distinct batch per factory <= 1, tasks EXECUTED per distinct batch per factory <= 1 and only for batches a task was created for, and every forwarded copy (re-published on the outgoing bus) belongs to a first delivery. Non-trivial: some batch is delivered >=2 times. distinct = FNV-64 of the case."
+const ruleOnce = "tier 1 (at-most-once): a never-started agent with its cache, the real BatchProcessor with 1-3 counting task factories and the REAL SimpleTasksManager (started, dispatch tick 2/5/20 ms, 10 tasks per tick) whose tasks record for which batch they run (in a third of the cases its Add refuses 1-4 drawn calls with the package's own ChTimedOut, as a bounded queue may); rapid draws 1-6 distinct batches of 1-60 signed snapshots of realistic size (32-byte digests, 64-byte signatures) and a delivery list in which each batch arrives 1-6 times 'from' drawn peers with drawn TTLs, in a drawn order, interleaved with the other batches. Oracle: tasks created per distinct batch per factory <= 1, tasks EXECUTED per distinct batch per factory <= 1 and only for batches a task was created for, and every forwarded copy (re-published on the outgoing bus) belongs to a first delivery. Non-trivial: some batch is delivered >=2 times. distinct = FNV-64 of the case."
 
 type countingFactory struct {
 	mu    *sync.Mutex
@@ -66,6 +67,27 @@ func (c countingFactory) New(ctx context.Context) gossip.Task {
 }
 func (c countingFactory) Metrics() []prometheus.Collector { return nil }
 
+// flakyTasks is the real task manager behind an Add that refuses drawn calls
+// the way a bounded queue does (the TasksManager interface lets Add fail).
+type flakyTasks struct {
+	*gossip.SimpleTasksManager
+	mu     sync.Mutex
+	calls  int
+	refuse map[int]bool
+}
+
+func (f *flakyTasks) Add(t gossip.Task) error {
+	f.mu.Lock()
+	k := f.calls
+	f.calls++
+	no := f.refuse[k]
+	f.mu.Unlock()
+	if no {
+		return gossip.ChTimedOut
+	}
+	return f.SimpleTasksManager.Add(t)
+}
+
 type recTasks struct {
 	mu sync.Mutex
 	n  int
@@ -83,6 +105,11 @@ func TestAtMostOnce(t *testing.T) {
 		var h OnceH
 		h.Factories = rapid.IntRange(1, 3).Draw(rt, "factories")
 		h.TickMs = rapid.SampledFrom([]int{2, 5, 20}).Draw(rt, "tick")
+		if rapid.IntRange(0, 2).Draw(rt, "flaky") == 0 {
+			for i, n := 0, rapid.IntRange(1, 4).Draw(rt, "nrefuse"); i < n; i++ {
+				h.Refuse = append(h.Refuse, rapid.IntRange(0, 12).Draw(rt, "refuse"))
+			}
+		}
 		next := uint64(0)
 		for i, n := 0, rapid.IntRange(1, 6).Draw(rt, "nbatches"); i < n; i++ {
 			var vs []uint64
@@ -131,7 +158,11 @@ func execOnce(h OnceH, rec *pbt.Rec) error {
 	conf.Role = "auditor"
 	conf.CacheSize = 1 << 20
 	// the real task manager, as `qed agent` builds it (shorter tick so that a case takes milliseconds)
-	tasks := gossip.NewSimpleTasksManager(time.Duration(h.TickMs)*time.Millisecond, 10)
+	real := gossip.NewSimpleTasksManager(time.Duration(h.TickMs)*time.Millisecond, 10)
+	tasks := &flakyTasks{SimpleTasksManager: real, refuse: map[int]bool{}}
+	for _, k := range h.Refuse {
+		tasks.refuse[k] = true
+	}
 	agent, err := gossip.NewDefaultAgent(conf, nil, nil, tasks, nil, nil)
 	if err != nil {
 		return &pbt.Unsettled{Why: "agent: " + err.Error()}
